@@ -86,7 +86,8 @@ class Unit:
 
     def __init__(self, name, entry, make, post, base=None, inputs=None, replay=None, loop_budget=64, loop_budgets=None, timeout_ms=20000,
                  max_paths=4000, observers=None, panics='violation', panic_ok=None, budget='violation', bounds=None, assumptions=None,
-                 known_pos=None, canary=None, judge=None, allow_unsupported_paths=False, path_filter=None, tol_margin=None):
+                 known_pos=None, canary=None, judge=None, allow_unsupported_paths=False, path_filter=None, tol_margin=None, int_only=False):
+        self.int_only = int_only
         self.name, self.entry, self.make, self.post = name, entry, make, post
         self.base = base or []
         self.inputs = inputs or {}          # name -> z3 term: reported in models / replay
@@ -114,6 +115,7 @@ def run_unit(unit, seed=0):
     eng = execm.Engine(M, timeout_ms=unit.timeout_ms, seed=seed, loop_budget=unit.loop_budget, max_paths=unit.max_paths, observers=unit.observers)
     eng.externals = ext.call_external
     eng.loop_budgets = dict(unit.loop_budgets)
+    eng.int_mode = unit.int_only
     eng.base = list(unit.base)
     res = {'name': unit.name, 'obligations': [], 'paths': 0, 'blocks': 0, 'queries': 0, 'solver_s': 0.0, 'unsupported': [], 'panic_paths': 0,
            'budget_paths': 0, 'functions': {}, 'bounds': unit.bounds, 'assumptions': list(unit.assumptions), 'events': [], 'canary': None,
@@ -121,6 +123,7 @@ def run_unit(unit, seed=0):
     f = M.resolve(unit.entry) if isinstance(unit.entry, str) else unit.entry
     if f is None and isinstance(unit.entry, str):
         f = M.fns.get(unit.entry)
+    composite = callable(unit.entry) and not hasattr(unit.entry, 'blocks')
     if f is None:
         res['error'] = f'entry function {unit.entry} not found in the MIR dump'
         return res
@@ -250,6 +253,8 @@ def run_unit(unit, seed=0):
         args, c = unit.make(eng)
         state['ctx'] = c
         try:
+            if composite:
+                return f(eng, args)
             return eng.run_fn(f, args)
         except Unsupported as u:
             res['unsupported'].append(str(u)[:300])
@@ -336,7 +341,7 @@ def build_replay():
         lock.close()
 
 
-def replay_call(kernel, args, profile='debug', timeout=20):
+def replay_call(kernel, args, profile='debug', timeout=6):
     """runs the real engeom code on concrete inputs.  returns dict: {'ok': result} | {'panic': msg} | {'timeout': True}"""
     exe = os.path.join(BUILD, 'replay-target', profile, 'engeom-replay')
     try:
@@ -382,6 +387,8 @@ def fold_results(v, results, judges, pid):
         for u in r.get('unsupported', []):
             v.undecided.append({'unit': r['name'], 'why': u})
         unit['unsupported'] = r.get('unsupported', [])[:5]
+        if r.get('paths', 0) == 0 and not r.get('unsupported') and not r.get('error') and not r.get('timeout'):
+            v.engine_errors.append(f"unit {r['name']}: no feasible path reached the post-condition (vacuous pre-state)")
         counts = {'unsat': 0, 'tol': 0, 'viol': 0, 'unknown': 0}
         seen_viol = set()
         for o in r['obligations']:
@@ -402,6 +409,13 @@ def fold_results(v, results, judges, pid):
                 path = None
                 reproduced = None
                 role = o['name']
+                if key_role in seen_viol:
+                    continue          # the same obligation of the same unit already reproduced on the real build once
+                replays_done = unit.get('replays', 0)
+                if replays_done >= 4:
+                    v.undecided.append({'unit': r['name'], 'obligation': o['name'], 'why': 'further violation candidates of this unit not replayed (cap of 4 per unit)'})
+                    continue
+                unit['replays'] = replays_done + 1
                 if rep and need_replay and judge:
                     outs = {prof: replay_call(rep['kernel'], rep['args'], prof) for prof in ('debug', 'release')}
                     v.traces += 2
@@ -411,12 +425,24 @@ def fold_results(v, results, judges, pid):
                         verdicts = {'debug': None}
                         v.engine_errors.append(f'judge failed for {r["name"]}/{o["name"]}: {e}')
                     reproduced = any(bool(x) for x in verdicts.values())
+                    if not reproduced and 'hash iteration order' in json.dumps(r.get('bounds', {})):
+                        # the violation may need a particular hash iteration order: every new process draws new RandomState seeds
+                        for _attempt in range(16):
+                            out_k = replay_call(rep['kernel'], rep['args'], 'debug')
+                            v.traces += 1
+                            try:
+                                vk = judge(o, rep, out_k)
+                            except Exception:
+                                vk = None
+                            if vk:
+                                outs['debug_retry'] = out_k
+                                verdicts['debug_retry'] = vk
+                                reproduced = True
+                                break
                     # a judge may refine the role of the failing input (used as the known-findings key)
                     for x in verdicts.values():
                         if isinstance(x, str):
                             role = x
-                    if key_role in seen_viol and reproduced:
-                        continue
                     rdir = os.path.join(VERIF, 'evidence', 'replays', pid)
                     os.makedirs(rdir, exist_ok=True)
                     h = hashlib.sha256(json.dumps([r['name'], o['name'], rep], sort_keys=True, default=str).encode()).hexdigest()[:10]
